@@ -53,6 +53,11 @@ CHECKS = {
    note=TB + "Fix bdafb1d (ColumnNames sliced Args[1:] of top() without arguments) is assumed by the totality theorem; the model is of the repaired code.",
    technique="Coq proof (induction over the column list with a freshness invariant; pigeonhole for termination) + small-scope exhaustive correspondence",
    design="5 C20"),
+ "C09": dict(
+   text="Theorem C09_sound (all expressions, all assignments, all splits; induction over the expression with an exhaustive case analysis of operator x operand-literal-kind cells): for every expression well-typed in the property's discipline and every assignment giving each variable a value of its kind, evaluating Reduce(e, rho1) under rho2 equals evaluating e under rho1++rho2, with integer division as float division and division/modulo by zero as zero; int64/uint64 wrap-around is explicit, floats are bit patterns under opaque operations shared by both sides. Also: folding preserves types; the evaluator respects the typing; time arithmetic folds to the exact instant/duration/truth value; now() folds to the clock. _refuted theorem for date-like strings (known finding). Tie: Reduce and ValuerEval.Eval vs model on every well-typed operator x kind x kind cell with 8x8 boundary values, literal and bound (exhaustive over cells), random typed trees x assignments x splits, and time arithmetic checked against math/big; Eval(Reduce(e,rho1),rho2) = Eval(e,rho1 u rho2) and idempotence judged directly.",
+   note=TB + "IEEE arithmetic, int<->float conversion, regexp matching and time-string parsing (UTC only) enter as oracle functions; idempotence is checked per case, not proved. Fixes d15000c (uint64 bindings) and aa5b77a (duration / fraction) were found here.",
+   technique="Coq proof (structural induction + exhaustive operator x kind case analysis) + exhaustive-over-cells correspondence",
+   design="5 C09"),
  "C03": dict(
    text="Theorems (all chains, all operands, by induction): the tree ParseExpr's right-spine insertion builds from a chain yields the chain in order and is Grouped (left children bind at least as tight, right children strictly tighter); there is exactly one Grouped tree per chain; the function on real BinaryExpr nodes builds that tree for every operand parseUnaryExpr can return; precedence/isOperator tables by computation over the whole enumeration; right spine <= 5. Tie: token table compared exhaustively with the running code; every chain of <=3 (thorough <=4) operators over all 18 spellings plus random chains with parenthesised, negated and literal operands compared (ParseExpr vs model, composed from separately parsed operands) and checked directly against the documented five-level reading and against re-parsing of the printed tree.",
    note=TB + "Re-printing is guarded by the known finding C02-neg-rhs (unary sign desugared without ParenExpr).",
